@@ -89,11 +89,24 @@ def gen_jobs(tier, seed):
                                                 {"k": "inter", "args": [rand_dep(rng, 3), rand_dep(rng, 3)]}]}
                 else:               # an intersection nested in an intersection
                     t = {"k": "inter", "args": [cls(1), {"k": "inter", "args": [cls(2), rand_dep(rng, 2)]}]}
+            elif shape == 4 and q % 20 == 4:
+                # a dependent type whose bound is a union of classes (int | str, int | A), in both spellings
+                if r < 0.6:
+                    members = rng.choice([[2, 3], [3, 2], [2, 4]])
+                    pool_ = sorted(set(inst_names(members[0])) | set(inst_names(members[1])))
+                    t = {"k": "dep", "bound": {"k": "union", "args": [cls(c) for c in members], "spell": rng.choice(["pipe", "typing"])},
+                         "holds": sorted(rng.sample(pool_, rng.randint(1, len(pool_))))}
+                else:
+                    t = cls(rng.choice([1, 2, 3, 4]))
             else:
                 t = rng.choice([rand_dep(rng), rand_lit(rng), cls(rng.choice([1, 2, 3, 4, 5, 6]))])
             pos = [t]
             if npos == 2:
                 pos.append(rng.choice([cls(1), cls(2), rand_dep(rng, 2)]))
+                if q % 20 == 17 and rng.random() < 0.5:
+                    # a union with a dependent member at one position, another condition at the other position
+                    pos[0] = {"k": "union", "args": [rand_lit(rng), cls(3)]}
+                    pos[1] = rand_lit(rng)
             methods.append({"id": f"m{j + 1}", "prio": rng.choice([0, 0, 0, 1]), "reg": j + 1, "pos": pos,
                             "reqpos": npos, "kwn": [], "kwt": [], "kwreq": [], "body": rng.choice(["leaf", "leaf", "next"])})
         if shape == 0 and q % 16 in (0, 8):
